@@ -6,7 +6,7 @@ VARIABLES k, done
 Containers ==
        [kind : {"ooxml"}, size : Sizes, info : {"standard", "agile"}, layout : Layouts, dataspaces : BOOLEAN]
   \cup [kind : {"plaincfb"}, content : {"xls", "vba"}, layout : Layouts]
-  \cup [kind : {"biff"}, filepass : {"none", "xor", "xor5", "rc4", "cryptoapi"}, after_writeprotect : BOOLEAN, sheets : 1..2]
+  \cup [kind : {"biff"}, filepass : {"none", "xor", "xor5", "rc4", "cryptoapi"}, after_writeprotect : BOOLEAN, protect : BOOLEAN, sheets : 1..2]
   \cup [kind : {"ods"}, entries : UNION {[1..n -> BOOLEAN] : n \in 1..3}]
 
 Init == k \in Containers /\ done = FALSE
